@@ -69,6 +69,7 @@ class Roles:
         self.m = model
         self.thread_locals: dict = {}  # (modshort, name) -> value node
         self.plain_storage: dict = {}  # module-level *_storage objects that are NOT threading.local
+        self._inst_tl: dict = {}
         self._find_thread_locals()
         self.ops: list[StorageOp] = []
         self._census()
@@ -122,6 +123,19 @@ class Roles:
             mod, name = b.target
             if (mod.short, name) in self.thread_locals:
                 return ((mod.short, name), chain)
+        # a threading.local() kept in an attribute of an object of an internal class
+        # (`self._local = threading.local()` in a method; reached as `self._local.x` / `obj._local.x`)
+        if chain and chain[0] != "[]":
+            ic = self.m.instance_class(fn, x)
+            if ic is not None:
+                key = (ic.module.short, f"{ic.name}.{chain[0]}")
+                if key not in self._inst_tl:
+                    vals = self.m.instance_attr_values(ic, chain[0])
+                    self._inst_tl[key] = bool(vals) and all(v is not None and self.is_threading_local_call(ic.module, v) for _, v in vals)
+                    if self._inst_tl[key]:
+                        self.thread_locals[key] = vals[0][1]
+                if self._inst_tl[key]:
+                    return (key, chain[1:])
         return None
 
     def local_aliases(self, fn) -> dict:
